@@ -14,7 +14,7 @@ META = dict(
     functions=["pyaes.AES.__init__", "pyaes.AES.encrypt", "pyaes.AES.decrypt", "AESModeOfOperationECB/CBC/CFB/OFB/CTR.encrypt/decrypt", "Counter.increment", "blockfeeder.Encrypter/Decrypter.feed", "_block_final_encrypt/_decrypt", "util.append_PKCS7_padding/strip_PKCS7_padding", "AES128Proxy.encrypt/decrypt/mac", "crypto.pad"],
     stubs=["aes.struct -> big-endian signed 32-bit unpack of four byte proxies", "aes._string_to_bytes/_bytes_to_string/_concat_list -> list based", "tables replaced as containers (array mode / UF mode)"],
     assumptions=[],
-    bounds=dict(quick="L1, L2 (all tables), L3 encrypt+decrypt R=10, L4 128-bit key, L5, L6 CBC + ECB + CTR counter carry, L8 adapter lengths {1,16,17,33}", thorough="L3 R=12,14; L4 192/256-bit; L6 CFB(1,8,16), OFB, CTR; L7 feeder splits; L8 lengths 1..40"),
+    bounds=dict(quick="L1, L2 (all tables), L3 encrypt+decrypt R=10, L4 128-bit key, L5, L6 all modes (ECB, CBC, CFB 1/8/16, OFB, CTR, counter carry) incl. a second object of the same class used between two calls, L8 adapter lengths {1,16,17,33}", thorough="L3 R=12,14; L4 192/256-bit; L6 CFB(1,8,16), OFB, CTR; L7 feeder splits; L8 lengths 1..40"),
     outside=["data > 40 bytes per call sequence", "more than 3 calls"],
 )
 
@@ -29,7 +29,7 @@ def jobs(tier, seed):
         J.append(dict(name="L3:decrypt:R%d" % R, kind="L3", op="decrypt", R=R, timeout=3400, cost=1000))
     for kl in ([16] if tier == "quick" else [16, 24, 32]):
         J.append(dict(name="L4:key-schedule:%d" % (8 * kl), kind="L4", keylen=kl, timeout=3400, cost=1500))
-    modes = ["ecb", "cbc", "ctr-counter"] if tier == "quick" else ["ecb", "cbc", "ctr-counter", "cfb1", "cfb8", "cfb16", "ofb", "ctr"]
+    modes = ["ecb", "cbc", "ctr-counter", "cfb1", "cfb8", "cfb16", "ofb", "ctr"]
     for m in modes:
         J.append(dict(name="L6:%s" % m, kind="L6", mode=m, timeout=3400, cost=500))
     if tier == "thorough":
@@ -511,50 +511,65 @@ def run_modes(job, z3, bv, aes, decide, results):
         decide("Counter.__init__", [], z3.BoolVal(list(c.value) == list(range(1, 17))))
         return _summ(bv, results)
 
+    from vlib import common as _common
+
+    CLS = [aes.AESModeOfOperationECB, aes.AESModeOfOperationCBC, aes.AESModeOfOperationCFB, aes.AESModeOfOperationOFB, aes.AESModeOfOperationCTR, aes.Counter, aes.AESBlockModeOfOperation]
+    snap0 = _common.global_snapshot([], classes=CLS)
     total = 32 if mode in ("ecb", "cbc", "cfb16") else (5 if mode in ("cfb1",) else (16 if mode == "cfb8" else 35))
     unit = {"ecb": 16, "cbc": 16, "cfb16": 16, "cfb8": 8, "cfb1": 1, "ofb": 1, "ctr": 1}[mode]
     for direction in ("encrypt", "decrypt"):
         if unit == 1:
-            cand = splits(total, 1)
-            # every split position is a lot for 35 bytes: cuts at all positions for 2 calls, boundary cuts for 3
-            cand = [c for c in cand if len(c) <= 2 or all(x in (1, 15, 16, 17, total - 17, total - 16, total - 1, total - 32) or True for x in c[:1]) and c[0] in (1, 15, 16, 17) and c[1] in (1, 15, 16, 17)]
+            # byte-granular modes: cuts at the block boundaries and next to them
+            cand = [[total]] + [[c, total - c] for c in (1, 15, 16, 17, 32, total - 1) if 0 < c < total] + [[a_, b_, total - a_ - b_] for a_, b_ in ((1, 15), (16, 16), (15, 2), (17, 1)) if a_ + b_ < total]
         else:
             cand = splits(total, unit)
         for cut in cand:
             del apps[:]
 
+            KEY = bytes(range(16))
+
+            def make(iv):
+                """the real constructors (concrete key), then the block cipher is swapped for the UF"""
+                if mode == "ecb":
+                    m = aes.AESModeOfOperationECB(KEY)
+                elif mode == "cbc":
+                    m = aes.AESModeOfOperationCBC(KEY, list(iv))
+                elif mode.startswith("cfb"):
+                    m = aes.AESModeOfOperationCFB(KEY, list(iv), segment_size=unit)
+                elif mode == "ofb":
+                    m = aes.AESModeOfOperationOFB(KEY, list(iv))
+                else:
+                    val = BV.const(0)
+                    for x in iv:
+                        val = val * 256 + x
+                    m = aes.AESModeOfOperationCTR(KEY, counter=aes.Counter(initial_value=val))
+                m._aes = UFAES()
+                return m
+
+            def feed(m, chunk):
+                if mode in ("ecb", "cbc"):
+                    o = []
+                    for q in range(0, len(chunk), 16):
+                        o += list(getattr(m, direction)(chunk[q : q + 16]))
+                    return o
+                return list(getattr(m, direction)(chunk))
+
             def fn():
                 data = [BV.var("d%d" % i, 0, 255) for i in range(total)]
                 iv = [BV.var("iv%d" % i, 0, 255) for i in range(16)]
-                if mode == "ecb":
-                    m = aes.AESModeOfOperationECB.__new__(aes.AESModeOfOperationECB)
-                elif mode == "cbc":
-                    m = aes.AESModeOfOperationCBC.__new__(aes.AESModeOfOperationCBC)
-                    m._last_cipherblock = list(iv)
-                elif mode.startswith("cfb"):
-                    m = aes.AESModeOfOperationCFB.__new__(aes.AESModeOfOperationCFB)
-                    m._shift_register = list(iv)
-                    m._segment_bytes = unit
-                elif mode == "ofb":
-                    m = aes.AESModeOfOperationOFB.__new__(aes.AESModeOfOperationOFB)
-                    m._last_precipherblock = list(iv)
-                    m._remaining_block = []
-                else:
-                    m = aes.AESModeOfOperationCTR.__new__(aes.AESModeOfOperationCTR)
-                    c = aes.Counter.__new__(aes.Counter)
-                    c._counter = list(iv)
-                    m._counter = c
-                    m._remaining_counter = []
-                m._aes = UFAES()
+                m = make(iv)
                 out, pos = [], 0
-                for n in cut:
-                    chunk = data[pos : pos + n]
-                    pos += n
-                    if mode in ("ecb", "cbc"):
-                        for q in range(0, n, 16):
-                            out += list(getattr(m, direction)(chunk[q : q + 16]))
-                    else:
-                        out += list(getattr(m, direction)(chunk))
+                if len(cut) == 2:
+                    # a second object of the same class is used between the two calls: results must not
+                    # depend on calls on another object (no state shared through the class)
+                    other = make([BV.var("jv%d" % i, 0, 255) for i in range(16)])
+                    out += feed(m, data[: cut[0]])
+                    feed(other, [BV.var("e%d" % i, 0, 255) for i in range(16 if unit == 16 else unit * 3)])
+                    out += feed(m, data[cut[0] :])
+                else:
+                    for n in cut:
+                        out += feed(m, data[pos : pos + n])
+                        pos += n
                 return data, iv, out
 
             for pc, (data, iv, out) in bv.Explorer().explore(fn):
@@ -598,6 +613,8 @@ def run_modes(job, z3, bv, aes, decide, results):
                     want = xor(d, ks[:total])
                 claim = z3.And([z3.BoolVal(len(out) == len(want))] + [byte_of(z3, BV.lift(o)) == w_ for o, w_ in zip(out, want)])
                 decide("%s.%s split %s" % (mode, direction, cut), list(pc) + inverse_axioms(), claim)
+    snap1 = _common.global_snapshot([], classes=CLS)
+    decide("class-level state unchanged", [], z3.BoolVal(snap0 == snap1))
     return _summ(bv, results)
 
 
@@ -836,12 +853,22 @@ def replay(job):
                 if back != d:
                     return dict(reproduced=True, signature="C16:" + mode, detail="mode %s: decrypt(encrypt(d)) = %s for d = %s" % (mode, back.hex(), d.hex()))
         else:
+            # an earlier object of the same class has been used in this process (state must not be shared)
+            unit = {"cfb1": 1, "cfb8": 8, "cfb16": 16}.get(mode, 1)
+            pre = make()
+            pre.encrypt(data[:20] if unit == 1 else data[: 2 * unit])
             whole = bytes(make().encrypt(d))
             m2 = make()
-            unit = {"cfb1": 1, "cfb8": 8, "cfb16": 16}.get(mode, 1)
             cutp = unit * max(1, (n // unit) // 2)
             got = bytes(m2.encrypt(d[:cutp])) + bytes(m2.encrypt(d[cutp:]))
             want = whole
+            if mode.startswith("cfb"):
+                sr, want = iv, b""
+                for i in range(0, n, unit):
+                    seg = d[i : i + unit]
+                    cs = bytes(a ^ b for a, b in zip(seg, E(sr)[: len(seg)]))
+                    want += cs
+                    sr = sr[len(cs) :] + cs
             if mode in ("ofb", "ctr"):
                 ks, o, ctr = b"", iv, int.from_bytes(iv, "big")
                 while len(ks) < n:
